@@ -97,6 +97,8 @@ def check_wire(cx, wire: bytes, rng, routes=("typed", "plain"), find=True, sampl
     rh, _ = R.dec_msg(wire)
     rtree = T.ref_tree(wire[20:])
     replay = {"op": "wire", "wire": wire.hex()}
+    if getattr(cx, "replay_op", None):
+        replay["op"] = cx.replay_op      # the outcome depends on what the process did before (run-time registration)
     cx.cov["max_msg_bytes"] = max(cx.cov["max_msg_bytes"], len(wire))
     k = str(min(len(rtree), 40) // 5 * 5)
     cx.cov["avps_per_msg"][k] = cx.cov["avps_per_msg"].get(k, 0) + 1
@@ -282,6 +284,7 @@ def run_register(cx, spec, rng):
             super().__post_init__()
 
     T = cx.T
+    cx.replay_op = "register"
     base_table = {k: v for k, v in cx.L.command_table().items() if k not in (7654321, 7654322)}
 
     def phase(name, table, n):
@@ -394,8 +397,11 @@ def run_shard(spec):
 
 def replay(obj):
     cx = Ctx({"tier": "quick", "seed": 0, "name": "replay"})
-    wire = bytes.fromhex(obj["wire"])
     rng = random.Random(0)
+    if obj.get("op") == "register":
+        run_register(cx, {}, rng)
+        return cx.result()
+    wire = bytes.fromhex(obj["wire"])
     check_wire(cx, wire, rng, find=True)
     if obj.get("path"):
         from diameter.message import Message
